@@ -45,6 +45,8 @@ def check(run):
                 ops.append(("AB", bp))
                 if rng.random() < 0.5:
                     ops.append(("ABR", 1 + rng.randrange(j + 1)))
+                if rng.random() < 0.4:
+                    ops.append(("ABA", rng.randrange(1 + j)))
             ops.append(("Q", {"cport": 53}, None))
             sessions.append(refexp.make_session(fp, first, ops, target=rng.choice(["fd", "fd", "nm"])))
             continue
